@@ -167,6 +167,12 @@ func ScopeFor(p Program, n, slots int, maxScalars int) Scope {
 				for _, x := range a.Values {
 					add(x)
 				}
+				if len(a.Values) == 0 {
+					// no members: the empty string is the value an implementation may confuse with "nothing"
+					add(str(""))
+					add(str("a"))
+					break
+				}
 				switch a.Values[0].(type) {
 				case ast.String:
 					add(str("zz"))
@@ -327,6 +333,17 @@ func FamilySpecialValues(thorough bool) []Program {
 			)
 		}
 	}
+	return out
+}
+
+// FamilyEmptySets: set constraints written with an empty list of values.
+func FamilyEmptySets() []Program {
+	var out []Program
+	for _, k := range []string{"in", "containsAll", "containsSome"} {
+		a := Atom{Path: P(0), Kind: k, Values: []ast.Value{}}
+		out = append(out, one("v", And{[]Formula{a}}))
+	}
+	out = append(out, one("v", Or{[]Formula{And{[]Formula{Atom{Path: P(0), Kind: "in", Values: []ast.Value{}}}}, mc(1)}}))
 	return out
 }
 
